@@ -46,6 +46,19 @@ def held_values(f, E, upto):
     return init, cur
 
 
+def late_mutators(E, idx):
+    """opaque callables (user code held in a member) that are handed the held value as a non-const lvalue after event `idx`"""
+    out = []
+    for e in E[idx + 1:]:
+        if e.kind != 'opaque' or e.obj in ('m_eq',) or e.node is None: continue
+        if not any(a is not None and a.is_field('m_val') and a.cat == 'l' for a in e.node.ns('args')): continue
+        q = e.node.d.get('calleeq') or ''
+        sig = q[q.find('(') + 1:q.rfind(')')] if '(' in q else ''
+        if sig and ('const' in sig or '&' not in sig): continue          # by value or by const reference: cannot change it
+        out.append(e)
+    return out
+
+
 def is_m_val(v):
     return isinstance(v, Ref) and v.loc[0] == 'f' and v.loc[1][-1] == 'm_val'
 
@@ -109,6 +122,11 @@ def assign_rules(facts, rep, f, label):
                 if not ok:
                     why = f'{len(w)} store(s) and {len(n)} notification(s) on the changing path' + (', notification before the store (subscribers see the old value)' if w and n and n[0] < w[0] else '')
                 rep.check(ok, 'OB.2', f'{label} row eq=false: store once, then notify once', E[n[0]].site if n else f.shortloc(), why, key=f'OB.2|neq|{strip_targs(f.qname)}', fn=f.name)
+            lm = late_mutators(E, cmp_[0])
+            if lm:
+                rep.violation('OB.2', f'{label}: what is stored and notified is what was compared', lm[0].site,
+                              f'`{(lm[0].node.text() or "")[:40]}` (user code) is handed the held value after eq() has compared it: the value that ends up stored is not the one the comparison saw — an assignment that this step maps back '
+                              f'onto the current value notifies although nothing changed, and one it maps elsewhere is judged by the raw argument', key=f'OB.2|late-mutator|{strip_targs(f.qname)}', fn=f.name)
             c = E[cmp_[0]]
             a0 = c.node.ns('args')[1] if c.node.ck == 'op' and len(c.node.ns('args')) >= 3 else None
             a1 = c.node.ns('args')[2] if c.node.ck == 'op' and len(c.node.ns('args')) >= 3 else None
@@ -185,6 +203,10 @@ def apply_rules(facts, rep, f, label):
                     good = bool(init_ok) and (before or not callable_nodes)
                 if good and ok_order: rep.ok('OB.1', inst, c.site)
                 else: rep.inconclusive('OB.1', inst, c.site, f'comparator operands {got} not followed (held value before {init}, after {cur})')
+            lm = late_mutators(E, cmp_[0])
+            if lm:
+                rep.violation('OB.1', f'{label}: the value that is notified is the value that was compared', lm[0].site,
+                              f'`{(lm[0].node.text() or "")[:40]}` (user code) is handed the held value after it has been compared with the copy taken before: the decision to notify was made on another value', key=f'OB.1|late-mutator|{strip_targs(f.qname)}', fn=f.name)
             ok = (len(n) == 0) if eq else (len(n) == 1 and n[0] > cmp_[0])
             rep.check(ok, 'OB.1', f'{label} row eq={eq}: {"nobody is notified" if eq else "subscribers are notified exactly once, after the change"}', E[n[0]].site if n else f.shortloc(),
                       (f'{len(n)} notification(s) although the value did not change' if eq else f'{len(n)} notification(s) for a change'), key=f'OB.1|notify|{eq}|{strip_targs(f.qname)}', fn=f.name)
